@@ -5,6 +5,7 @@ package main
 import (
 	"fmt"
 	"go/ast"
+	"go/constant"
 	"go/printer"
 	"go/token"
 	"go/types"
@@ -207,8 +208,7 @@ func (x *Exec) define(st *State, id *ast.Ident, v Term) {
 	if _, isVar := obj.(*types.Var); isVar {
 		if _, inState := st.vars[obj]; !inState {
 			if vv := obj.(*types.Var); vv.Pkg() != nil && vv.Parent() == vv.Pkg().Scope() {
-				x.abstractNote(id, "assignment to package-level variable "+id.Name+" (ignored)")
-				return
+				x.c().note("package-level variable assigned in " + x.fullKey + ": " + id.Name + " (tracked in this function; other functions see an unconstrained constant unless a contract states an invariant)")
 			}
 		}
 	}
@@ -746,7 +746,24 @@ func (x *Exec) loop(st *State, node ast.Stmt, ord int, label string, mod map[typ
 func (x *Exec) rangeStmt(st *State, s *ast.RangeStmt, label string) *Flow {
 	c := x.c()
 	ord := x.loopOrd[s]
-	coll := x.expr(st, s.X)
+	var coll Term
+	if tv, ok := x.info.Types[s.X]; ok && tv.Value != nil && tv.Value.Kind() == constant.String {
+		// range over a constant ASCII string: the runes are its bytes
+		str := constant.StringVal(tv.Value)
+		for i := 0; i < len(str); i++ {
+			if str[i] >= 0x80 {
+				x.unsupported(s, "range over non-ASCII constant string")
+			}
+		}
+		ss := c.sliceSort(sortInt)
+		arr := c.fresh("strbytes", c.arrSort(sortInt, sortInt))
+		for i := 0; i < len(str); i++ {
+			arr = app(arr.Sort, "store", arr, tInt(int64(i)), tInt(int64(str[i])))
+		}
+		coll = c.define("strrunes", c.mkSlice(ss, tInt(int64(len(str))), arr))
+	} else {
+		coll = x.expr(st, s.X)
+	}
 	coll = x.autoDerefQuiet(coll)
 	mod := x.assignedIn(s.Body)
 	gi := fmt.Sprintf("$i%d", ord)
@@ -784,6 +801,8 @@ func (x *Exec) rangeStmt(st *State, s *ast.RangeStmt, label string) *Flow {
 				if a, ok := u.Elem().Underlying().(*types.Array); ok {
 					et = a.Elem()
 				}
+			case *types.Basic:
+				et = types.Typ[types.Int32] // runes of a constant string
 			}
 		case KInt:
 			n = coll
